@@ -22,7 +22,7 @@ var (
 			"check sequence: no pending-list call before the first passing check and one soon after it, exit (non-zero) right after the "+
 			"check completing `threshold` consecutive failures and not before, alive otherwise; non-trivial = sequence with a failure run "+
 			"of length threshold-1 followed by a pass, or a late-healthy prefix; distinct = SHA-256 of the scenario"+
-			" Later additions: every batch holds a backend that comes up late and fails again (fewer times than the threshold) right after its first pass.")
+			" Later additions: every batch holds a backend that comes up late and fails again (fewer times than the threshold) right after its first pass; in half of the scenarios one or two checks are answered only after 1.3-3.3 s (longer than the interval).")
 	recS = vh.NewRecorder("C20", "shutdown",
 		"signal in {SIGINT,SIGTERM} x grace in {0,1,2,3 s} x phase in {idle, listed-not-fetched, at backend, uploading} x backend latency "+
 			"relative to grace, against the real agent binary (8 scenarios concurrently); oracle: with grace>0 a request already at the "+
@@ -40,6 +40,8 @@ type HealthScn struct {
 	Threshold int    `json:"threshold"`
 	Results   []bool `json:"results"`
 	FailCodes []int  `json:"fail_codes"`
+	// DelaysMs[i] > 0: the backend answers check i only after that long (longer than the check interval of 1 s)
+	DelaysMs []int `json:"delays_ms,omitempty"`
 }
 
 type HealthCase struct {
@@ -85,6 +87,13 @@ func genHealthScn(t *rapid.T, i int) HealthScn {
 		s.Results = s.Results[:10]
 	}
 	s.FailCodes = rapid.SliceOfN(rapid.SampledFrom([]int{500, 404, 503}), 1, 3).Draw(t, "codes")
+	if rapid.Bool().Draw(t, "slowChecks") {
+		// one or two checks that take longer than the interval (the counter is about checks, not about ticks)
+		s.DelaysMs = make([]int, len(s.Results))
+		for k := rapid.IntRange(1, 2).Draw(t, "nslow"); k > 0; k-- {
+			s.DelaysMs[rapid.IntRange(0, len(s.Results)-1).Draw(t, "slowAt")] = rapid.SampledFrom([]int{1300, 2400, 3300}).Draw(t, "slowMs")
+		}
+	}
 	return s
 }
 
@@ -157,12 +166,15 @@ func runHealthScn(s *HealthScn) (o vh.Outcome) {
 		}
 		mu.Lock()
 		i := len(checks)
-		pass := true
+		pass := firstPass >= 0 // checks beyond the script pass, unless the backend never becomes healthy at all
 		if i < len(s.Results) {
 			pass = s.Results[i]
 		}
 		checks = append(checks, hcheck{time.Now(), pass})
 		mu.Unlock()
+		if i < len(s.DelaysMs) && s.DelaysMs[i] > 0 {
+			time.Sleep(time.Duration(s.DelaysMs[i]) * time.Millisecond)
+		}
 		if pass {
 			w.WriteHeader(200)
 		} else {
@@ -188,7 +200,19 @@ func runHealthScn(s *HealthScn) (o vh.Outcome) {
 	if exitAfter >= 0 {
 		want = exitAfter + 1
 	}
-	deadline := time.Now().Add(time.Duration(want+6) * time.Second)
+	slowTotal, lastDelay := 0, 0
+	for i, d := range s.DelaysMs {
+		if i < want {
+			slowTotal += d
+		}
+		if i == want-1 {
+			lastDelay = d
+		}
+	}
+	if slowTotal > 0 {
+		o.Classes = append(o.Classes, "check-slower-than-the-interval")
+	}
+	deadline := time.Now().Add(time.Duration(want+6)*time.Second + time.Duration(slowTotal)*time.Millisecond)
 	for nchecks() < want && agent.Alive() && time.Now().Before(deadline) {
 		time.Sleep(10 * time.Millisecond)
 	}
@@ -205,7 +229,7 @@ func runHealthScn(s *HealthScn) (o vh.Outcome) {
 	if exitAfter >= 0 {
 		select {
 		case <-agent.Exited():
-		case <-time.After(2500 * time.Millisecond):
+		case <-time.After(time.Duration(2500+lastDelay) * time.Millisecond):
 			o.Err = fmt.Errorf("agent still running 2.5s after %d consecutive failed health checks (threshold %d, results %v, observed %d checks)", s.Threshold, s.Threshold, s.Results, nchecks())
 			return
 		}
@@ -219,7 +243,7 @@ func runHealthScn(s *HealthScn) (o vh.Outcome) {
 		}
 	} else {
 		// must still be alive a little after the last scripted check
-		time.Sleep(300 * time.Millisecond)
+		time.Sleep(time.Duration(300+lastDelay) * time.Millisecond)
 		if !agent.Alive() {
 			o.Err = fmt.Errorf("agent exited although no run of %d consecutive failures occurred after the first pass (results %v): %s", s.Threshold, s.Results, agent.Tail(4))
 			return
